@@ -221,6 +221,10 @@ fn features() -> Vec<Feature> {
             user_attr(d, "\"if\": Long", "if", json!({"type": "Long"}));
             user_attr(d, "\"a b\"?: String", "a b", json!({"type": "String", "required": false}));
             user_attr(d, "\"in\": { \"true\": Bool }", "in", json!({"type": "Record", "attributes": {"true": {"type": "Boolean"}}}));
+            // names that are identifiers only after trimming, or not identifiers at all
+            user_attr(d, "\" lead\": Long", " lead", json!({"type": "Long"}));
+            user_attr(d, "\"trail \"?: Long", "trail ", json!({"type": "Long", "required": false}));
+            user_attr(d, "\"9x\": { \"a::b\": Bool, \" \": Long, \"é\"?: String, \"a\\tb\": Long }", "9x", json!({"type": "Record", "attributes": {"a::b": {"type": "Boolean"}, " ": {"type": "Long"}, "é": {"type": "String", "required": false}, "a\tb": {"type": "Long"}}}));
             let n = d.ns("");
             n.cedar.push("action \"view photo\", \"é \\\"q\\\"\" appliesTo { principal: [User], resource: [Doc] };".into());
             n.acts.insert("view photo".into(), json!({"appliesTo": {"principalTypes": ["User"], "resourceTypes": ["Doc"]}}));
@@ -351,6 +355,56 @@ fn data_verdicts(s: &cedar_policy::Schema) -> Vec<bool> {
     out
 }
 
+/// constructs only the JSON syntax can write
+fn json_only_extras() -> Vec<(&'static str, fn(&mut J))> {
+    fn ns_with_shadowed_entity(doc: &mut J, ns: &str) {
+        let o = doc.as_object_mut().unwrap();
+        let entry = o.entry(ns.to_string()).or_insert_with(|| json!({"entityTypes": {}, "actions": {}}));
+        let e = entry.as_object_mut().unwrap();
+        let commons = e.entry("commonTypes".to_string()).or_insert_with(|| json!({}));
+        commons.as_object_mut().unwrap().insert("Tz".into(), json!({"type": "String"}));
+        let ets = e.get_mut("entityTypes").unwrap().as_object_mut().unwrap();
+        ets.insert("Tz".into(), json!({}));
+        ets.insert("Hz".into(), json!({"shape": {"type": "Record", "attributes": {"x": {"type": "Entity", "name": "Tz"}, "y": {"type": "Tz"}}}}));
+    }
+    vec![
+        ("json-only:entity-ref-shadowed-in-early-namespace", |d| ns_with_shadowed_entity(d, "AAJ")),
+        ("json-only:entity-ref-shadowed-in-late-namespace", |d| ns_with_shadowed_entity(d, "ZZJ")),
+        ("json-only:entity-ref-shadowed-in-empty-namespace", |d| ns_with_shadowed_entity(d, "")),
+    ]
+}
+
+/// leg (1): JSON -> to_cedarschema -> load must give the schema `sj` (a refused translation is
+/// skipped and counted)
+fn leg_json_to_cedar(ctx: &Ctx, l: &mut Local, fp_prefix: &str, names: &[&str], json_val: &J, sj: &cedar_policy::Schema, rep: &dyn Fn() -> J) {
+    l.transitions += 1;
+    match cedar_policy::SchemaFragment::from_json_value(json_val.clone()) {
+        Err(e) => ctx.violation("fragment:json-rejected", format!("Schema accepts but SchemaFragment::from_json_value rejects: {e}"), rep()),
+        Ok(frag) => match frag.to_cedarschema() {
+            Err(_) => {
+                // translation may legitimately fail (name collisions): skipped, counted
+                l.case(hash_of(&(names, "j2c-skip")), "json->cedar:translation-refused", false);
+            }
+            Ok(text) => match cedar_policy::Schema::from_cedarschema_str(&text) {
+                Err(e) => ctx.violation(format!("{fp_prefix}json->cedar:reload-failed:{}", names.join("+")), format!("to_cedarschema output does not load: {e}\n{text}"), rep()),
+                Ok((back, _)) => {
+                    l.case(hash_of(&(names, "j2c")), "json->cedar->load", true);
+                    if core(&back) != core(sj) {
+                        ctx.violation(format!("{fp_prefix}json->cedar:schema-changed:{}", names.join("+")), format!("JSON schema -> to_cedarschema -> load gives a different schema (features {names:?}):\n{text}"), rep());
+                    } else {
+                        if verdicts(&back) != verdicts(sj) {
+                            ctx.violation(format!("{fp_prefix}json->cedar:verdicts-differ:{}", names.join("+")), "policy validation verdicts differ after translation", rep());
+                        }
+                        if data_verdicts(&back) != data_verdicts(sj) {
+                            ctx.violation(format!("{fp_prefix}json->cedar:data-verdicts-differ:{}", names.join("+")), "request/entity validation verdicts differ after translation", rep());
+                        }
+                    }
+                }
+            },
+        },
+    }
+}
+
 pub fn run(tier: Tier, replay_file: Option<&str>) -> i32 {
     if let Some(p) = replay_file {
         return replay_by_rerun("C09", p, || run(Tier::Quick, None));
@@ -411,31 +465,22 @@ pub fn run(tier: Tier, replay_file: Option<&str>) -> i32 {
             ctx.violation(format!("renderings-differ:{}", names.join("+")), format!("the Cedar-syntax and JSON renderings of the same model load to different schemas (features {names:?})"), rep());
         }
         // (1) JSON -> Cedar syntax -> load
-        l.transitions += 1;
-        match cedar_policy::SchemaFragment::from_json_value(json_val.clone()) {
-            Err(e) => ctx.violation("fragment:json-rejected", format!("Schema accepts but SchemaFragment::from_json_value rejects: {e}"), rep()),
-            Ok(frag) => match frag.to_cedarschema() {
-                Err(_) => {
-                    // translation may legitimately fail (name collisions): skipped, counted
-                    l.case(hash_of(&(&names, "j2c-skip")), "json->cedar:translation-refused", false);
-                }
-                Ok(text) => match cedar_policy::Schema::from_cedarschema_str(&text) {
-                    Err(e) => ctx.violation(format!("json->cedar:reload-failed:{}", names.join("+")), format!("to_cedarschema output does not load: {e}\n{text}"), rep()),
-                    Ok((back, _)) => {
-                        l.case(hash_of(&(&names, "j2c")), "json->cedar->load", true);
-                        if core(&back) != core(&sj) {
-                            ctx.violation(format!("json->cedar:schema-changed:{}", names.join("+")), format!("JSON schema -> to_cedarschema -> load gives a different schema (features {names:?}):\n{text}"), rep());
-                        } else {
-                            if verdicts(&back) != verdicts(&sj) {
-                                ctx.violation(format!("json->cedar:verdicts-differ:{}", names.join("+")), "policy validation verdicts differ after translation", rep());
-                            }
-                            if data_verdicts(&back) != data_verdicts(&sj) {
-                                ctx.violation(format!("json->cedar:data-verdicts-differ:{}", names.join("+")), "request/entity validation verdicts differ after translation", rep());
-                            }
-                        }
-                    }
-                },
-            },
+        leg_json_to_cedar(&ctx, &mut l, "", &names, &json_val, &sj, &rep);
+        // (1') JSON-only documents: the same model plus a construct only the JSON syntax can
+        // express (an explicit Entity reference to a name that a common type shadows)
+        for (xname, extra) in json_only_extras() {
+            let mut jv = json_val.clone();
+            extra(&mut jv);
+            let mut xn: Vec<&str> = names.clone();
+            xn.push(xname);
+            let Ok(sjx) = cedar_policy::Schema::from_json_value(jv.clone()) else {
+                l.case(hash_of(&(&xn, "json-only")), "generator-schema-rejected", false);
+                continue;
+            };
+            l.transitions += 1;
+            l.case(hash_of(&(&xn, "json-only")), "json-only-accepted", true);
+            let repx = || json!({"features": xn, "json": jv});
+            leg_json_to_cedar(&ctx, &mut l, &format!("{xname}:"), &names, &jv, &sjx, &repx);
         }
         // (2) Cedar syntax -> JSON -> load
         l.transitions += 1;
